@@ -39,7 +39,7 @@ def _conf_inputs(c, rank4=False, multi=False):
 @contract
 class MakeConfmaps(Contract):
     target = "sleap_nn.data.confidence_maps.make_confmaps"
-    props = ("C01", "C18")
+    props = ("C01", "C18", "C11")
     dims = ("S", "N", "Hg", "Wg")
 
     def inputs(self, c, case):
@@ -101,7 +101,7 @@ def multi_clauses(out, pts, gx, gy, sigma, k):
 @contract
 class MakeMultiConfmaps(Contract):
     target = "sleap_nn.data.confidence_maps.make_multi_confmaps"
-    props = ("C01", "C18")
+    props = ("C01", "C18", "C11")
     functional = False
     dims = ("I", "N", "Hg", "Wg")
 
@@ -156,7 +156,7 @@ class MakeMultiConfmapsLoop(Invariant):
 
 class _GenBase(Contract):
     level = "property"
-    props = ("C01",)
+    props = ("C01", "C11")
     dims = ("S", "I", "N", "H", "W", "stride")
     dim_ranges = {"stride": (1, 3)}
 
